@@ -756,10 +756,6 @@ func lemmaShowableKinds(k reflect.Kind) bool {
 //@ maploop (*functionBuilder).end 1
 //@   props C30
 
-//@ maploop (*emitter).emitPackage 0
-//@   props C30
-//@   opt puremethods Kind
-
 //@ maploop (*emitter).emitNodes 0
 //@   props C30
 
@@ -776,10 +772,43 @@ func lemmaShowableKinds(k reflect.Kind) bool {
 //@   props C30
 //@   opt sorted yes
 
+// The functions of a package are collected from a map and sorted with a
+// caller-supplied order; the order must decide every pair of distinct
+// functions. Assumed of the data: two distinct named functions of one package
+// differ in name or file (function literals are not collected).
 //@ maploop Disassemble 2
 //@   props C30
 //@   opt sorted yes
+//@   opt sortkey Name File
 
 //@ maploop disassembleFunction 0
 //@   props C30
 //@   opt sorted yes
+
+//@ maploop (*compilation).finalizeUsingStatements 0
+//@   props C30
+//@   opt sorted yes
+
+// Stops at the first format whose type is the macro's result type. Assumed of
+// the data: the format types passed by the template package are pairwise
+// distinct (templates.go: one native type per format).
+//@ maploop (*emitter).canOptimizeShowMacro 0
+//@   props C30
+//@   opt injective yes
+
+// Not decided by the verifier (no obligation, listed as not covered):
+//@ maploop (*deps).nodeDeps 0
+//@   props C30
+//@   opt uncovered the last matching key wins; order-insensitive only if an identifier occurs in the value list of at most one key of d.itea, a data invariant of the checker that no local contract states
+
+//@ maploop BuildProgram 0
+//@   props C30
+//@   opt uncovered maps.Copy of per-package type infos into one map; order-insensitive only because the node sets of distinct packages are disjoint
+
+//@ maploop BuildTemplate 0
+//@   props C30
+//@   opt uncovered maps.Copy of per-package type infos into one map; order-insensitive only because the node sets of distinct packages are disjoint
+
+//@ maploop Disassemble 0
+//@   props C30
+//@   opt uncovered one buffer is reused and reset per package and the body calls disassembleFunction (not under contract); each iteration writes only assemblies[path]
